@@ -267,33 +267,62 @@ class C07(Check):
             'PageXMLWord.add_to_pagexml', 'PageXMLWord._to_pagexml', 'PageXMLTextLine.add_to_pagexml',
             'PageXMLTextLine._to_pagexml', 'PageXMLTextRegion.add_to_pagexml', 'PageXMLTextRegion._to_pagexml',
             'PageXMLScan.add_to_pagexml', 'PageXMLTableRegion.add_to_pagexml'],
-        'pagexml/parser.py': ['parse_pagexml_file', 'parse_pagexml_json', 'parse_textregion', 'parse_textline',
-                              'parse_line_words', 'parse_conf', 'parse_page_reading_order'],
+        'pagexml/parser.py': ['parse_pagexml_file', 'parse_pagexml_json', 'parse_textregion', 'parse_textregion_list',
+                              'parse_textline', 'parse_textline_list', 'parse_line_words', 'parse_text_equiv', 'parse_conf',
+                              'parse_coords', 'parse_baseline', 'parse_page_reading_order', 'parse_page_metadata',
+                              'parse_page_image_size', 'parse_custom_metadata', 'parse_custom_attributes'],
     }
     level_note = (
         'proved (Lean; no bound on sizes, nesting depth or values; the structure rules validChild / singleton and the tag sets of '
         'Coords / Baseline / text are tables REGENERATED from pagexml/model/xml.py on every run, so the theorems are re-checked '
-        'against the rules as they are now): C07_export_ok — for every scan / text region (nested) / line / word without table '
-        'regions no structural guard of the export fires (export with all guards switched off is the same function); '
+        'against the rules as they are now). FIRST HALF: C07_export_ok — for every scan / text region (nested) / line / word without '
+        'table regions no structural guard of the export fires (export with all guards switched off is the same function); '
         'C07_wellformed — every exported tree is a PcGts root whose children are exactly one Metadata and one Page; C07_structure '
         '— in every exported tree (also with table regions) every parent/child pair satisfies is_valid_pagexml_sub_element, '
-        'including the elements appended without a check (Coords, Baseline, TextEquiv, Unicode, PlainText, Metadata). '
-        'NOT proved, sampled on every case: that each element with an id carries it and C07_roundtrip — the content the parser '
-        'reads from the exported tree (ids, points, baselines, text, confidence, custom string, nesting, reading order; computed '
-        'by the model as readNodes/readingOrderAt on its own export) equals the content of the document (regionNodes): the driver '
-        'returns both and the harness compares them with each other AND with the real parse_pagexml_file on the real '
-        'to_pagexml(tostring=True); the parser itself is C01\'s model and is tied here by that correspondence only. '
-        'lxml serialisation + expat re-read = identity on the abstract tree, the XML declaration, and the namespace of every '
-        'element are judged by the oracle on the real output. Outside the quantifier (statement lists lines/words text): '
-        'region-level text, xheight and a falsy orientation are not exported; table rows/cells are never exported.')
+        'including the elements appended without a check (Coords, Baseline, TextEquiv, Unicode, PlainText, Metadata); '
+        'C07_export_tree — the export of a text-hierarchy document in closed form: it succeeds exactly when expScan holds (ids None '
+        'or str, custom attributes serialise, str() of confidences / truthy orientations modelled, metadata fields and reading-order '
+        'references are strings) and then returns exactly the pure tree scanTree(asScan d) (a bare region / line / word is the scan '
+        'holding just it, for a line inside the dummy region, for a word inside the dummy region and dummy line: C07_bare_wrappers); '
+        'C07_content_carried / C07_ids_carried — for EVERY exported text-hierarchy document, reading the tree back (id, Coords and '
+        'Baseline points, Unicode text, conf, custom string of every TextRegion / TextLine / Word at any depth, with the nesting) '
+        'gives the document\'s regions / lines / words one for one in document order, in particular every element that corresponds '
+        'to a document element with an id carries that id and no other element has one; the RegionRefIndexed entries are the '
+        'reading order in order. SECOND HALF: C07_roundtrip — for every document of the property (rtDoc, a decidable predicate '
+        'evaluated by the driver on every generated case: scan / nested regions / line / word, every region, line and word with '
+        'coordinates, lines with or without text / baseline / confidence / words, ids strings or absent, confidences and truthy '
+        'orientations float literals, serialisable custom attributes, reading order with string references, no tables) the export '
+        'succeeds and the C01 parser model (parseScan = parse_pagexml_json + constructors) applied to the xmltodict value (toDict) '
+        'of the exported tree returns, without raising, exactly contentScan: C07_same_content / C07_same_region / C07_same_line '
+        'spell it out — scan id = imageFilename, image size, the regions with ids, polygons, lines (id, text as xmltodict strips it, '
+        'polygon, baseline, confidence literal, words) nested as in the document and ordered by the re-parsed scan\'s constructor '
+        '(orderRegions, C05), reading order entries and id/caption; C07_text_exact (text without edge whitespace comes back '
+        'unchanged), C07_conf_exact, C07_roundtrip_no_order. Custom attributes: C07_custom_entry — the @custom entry of the dict '
+        'the parser receives for every Word / TextLine / TextRegion is make_custom_string(custom); C07_custom_roundtrip — for '
+        'custom attributes that are well-formed entries (C11.EntryOK: what every parse returns; dict shape pairs-then-tag_name) '
+        'parse_custom_attributes (C11 model, any lawful character class) of that string gives the entries back — C07.customString '
+        'and C11.makeCustomString are proved to be the same function there and the C11 round trip is reused (no hypothesis '
+        'parameter). The C01 parser model does not carry custom attributes, so they are tied through these two theorems, not through '
+        'parseScan. CONTRACT (not proved, compared on every case): lxml serialisation + expat re-read is the identity on the '
+        'abstract tree up to the namespace declarations docX adds on the root and whitespace between elements — the harness compares '
+        'the driver\'s tree with the real tree, toDict(docX tree) with xmltodict.parse(REAL string), parseScan of it with the REAL '
+        'parse_pagexml_file(REAL string), the pure tree with the export, and parseScan with contentScan. The XML declaration and the '
+        'namespace of every element are judged by the oracle on the real output. NOT proved: C07_export_tree / C07_content_carried '
+        'for scans holding table regions (outside the property; the guard of add_pagexml_coords fires for a table with coordinates); '
+        'that the generated API documents\' custom attributes satisfy C11.EntryOK (sampled: the real parse_custom_attributes on the '
+        'exported string is compared with the document). Outside the quantifier (statement lists lines/words text): region-level '
+        'text, xheight and a falsy orientation are not exported; table rows/cells are never exported.')
     assumptions = [
         'generated documents: every element has coordinates (mandatory in PAGE; the parser needs them on lines and words); text '
         'is non-empty XML-legal without leading/trailing whitespace (xmltodict strips it: known finding C01:text-edge-whitespace); '
         'an empty text and no text are identified (both are <Unicode/>); scans have an id and an image of positive width and height; '
         'custom attributes are typed the way the parser types them; missing custom attributes ≡ []; confidences compared numerically',
         'abstract tree: local tag names (namespace checked separately on the real tree), attributes compared as a set, children in '
-        'document order; lxml keeps attribute / child insertion order',
+        'document order; lxml keeps attribute / child insertion order; the serialised root carries xmlns, xmlns:xsi, '
+        'xsi:schemaLocation in this order (docX; compared with xmltodict.parse of the real string on every case)',
         'str() of int/float/bool/None and of repr-literal floats mirrored by hand (pyStr)',
+        'the parser is the C01 model (parseScan); its own tie to parser.py is C01\'s correspondence plus, here, the comparison of '
+        'parseScan(toDict(docX tree)) with parse_pagexml_file on the real exported string on every case',
     ]
     nontrivial_rule = 'distinct case inputs; non-trivial = an export of a document with at least one line, or a tag pair'
 
@@ -376,10 +405,13 @@ class C07(Check):
         except Exception as e:  # noqa
             out['string_err'] = err_name(e)
             return out
+        from harness.props import _doc as D
+        out['xmltodict'] = D.real_todict(s)
         try:
             from pagexml.parser import parse_pagexml_file
             s2 = _quiet(lambda: parse_pagexml_file('reparsed.xml', pagexml_data=s))
             out['reparsed'] = c_scan(s2)
+            out['reparsed_dump'] = D.dump_scan(s2)
         except Exception as e:  # noqa
             out['reparse_err'] = err_name(e)
         return out
@@ -421,6 +453,38 @@ class C07(Check):
             return f'exported tree differs at {d}'
         if out['tree']['ns'] != mo['ns']:
             return f'namespace: impl {out["tree"]["ns"]} model {mo["ns"]}'
+        # the tie of the second half: the driver's tree as the parser's XML reader sees it (docX), its xmltodict
+        # value (toDict) and the C01 parser on it, against xmltodict.parse / parse_pagexml_file on the REAL string
+        from harness.props import _doc as D
+        if 'xmltodict' in out:
+            real = out['xmltodict']
+            if 'ok' not in real:
+                return f'xmltodict.parse on the exported string: {real}'
+            d = D.first_diff(_canon_root(real['ok']), _canon_root(mo['dict']))
+            if d is not None:
+                return f'xmltodict.parse(exported string) differs from toDict of the model tree at {d}'
+        mp = mo['parsed']
+        if 'hull' not in mp:
+            if 'reparse_err' in out:
+                if mp != {'err': out['reparse_err']}:
+                    return f'parse_pagexml_file raises {out["reparse_err"]}, model parser on the model tree: {str(mp)[:200]}'
+            elif 'reparsed_dump' in out:
+                if 'ok' not in mp:
+                    return f'parse_pagexml_file succeeds, model parser on the model tree: {mp}'
+                d = D.first_diff(out['reparsed_dump'], D.norm_scan(mp['ok']))
+                if d is not None:
+                    return f'parse_pagexml_file(exported string) differs from parseScan(toDict(model tree)) at {d}'
+        # instances of the theorems: C07_export_tree (the export is the pure tree) and C07_roundtrip
+        if mo['exp'] and G._first_diff(mo['tree'], mo['pure_tree']) is not None:
+            return f'model: export differs from scanTree at {G._first_diff(mo["tree"], mo["pure_tree"])}'
+        if case.kind == 'export' and not mo['rt']:
+            return 'model: a generated document of the property is outside rtDoc (the quantifier of C07_roundtrip)'
+        if mo['rt']:
+            if 'ok' not in mp:
+                return f'model: document in the quantifier (rtDoc) but parseScan gives {mp}'
+            d = D.first_diff(mp['ok'], mo['content'])
+            if d is not None:
+                return f'model: parseScan(toDict(export)) differs from contentScan at {d}'
         # the model's reading of its own export equals the content read from the document …
         if case.kind == 'export' and out['cls'] in ('PageXMLScan', 'PageXMLTextRegion'):
             d = G._first_diff(mo['doc_regions'], mo['read_regions'])
@@ -514,6 +578,17 @@ class C07(Check):
         if case.kind == 'rules':
             return []
         return G.CHECK.shrink_candidates(case)
+
+
+def _canon_root(v):
+    """the namespace declarations / xsi attributes of the root are not read by the parser: compared as a set"""
+    try:
+        (k, root), = v['d']
+        attrs = sorted([e for e in root['d'] if e[0].startswith('@')], key=lambda e: e[0])
+        rest = [e for e in root['d'] if not e[0].startswith('@')]
+        return {'d': [[k, {'d': attrs + rest}]]}
+    except Exception:  # noqa
+        return v
 
 
 def _strip(out):
